@@ -181,6 +181,11 @@ def check_url(s: str) -> tuple[list[Failure], list[str]]:
                     want = b"/" + want
                 if refurl.pct_decode_bytes(u.path) != want:
                     fails.append(Failure("normal-meaning", {"component": "path"}, f"{s!r}: path {u.path!r} does not mean the same bytes as {raw_path!r}"))
+            elif raw_path.startswith("/"):
+                # dot segments are removed exactly as RFC 3986 section 5.2.4 prescribes (nothing else is lost)
+                want = refurl.literal_or_decoded(refurl.remove_dot_segments(raw_path))
+                if refurl.pct_decode_bytes(u.path) != want:
+                    fails.append(Failure("normal-dots", {"kind": "not-rfc-removal"}, f"{s!r}: path {u.path!r}, RFC 3986 dot-segment removal of {raw_path!r} gives {refurl.remove_dot_segments(raw_path)!r}"))
         # idempotence
         try:
             u2 = parse_url(u.url)
